@@ -141,4 +141,7 @@ void *vs_getx(uint64_t idx, int type, int deg);
 #define FP48(i) (*(fp48_t *)FPXP(i, 48))
 #define FP54(i) (*(fp54_t *)FPXP(i, 54))
 
+/* extension-curve point slots (b_epx.c) */
+void *vs_getp(uint64_t idx, int type, int deg);
+
 #endif
